@@ -22,6 +22,11 @@
 (*        no name given, w = 1 / 2 the caller gives the trusted SHA-1 /    *)
 (*        SHA-256 name (FixedSha), as a sha1 / sha256 object store does    *)
 (*   copy(), check(), from_file(as_legacy_object()) = Copy, Check, Reload  *)
+(*   a setter given a value that cannot be serialised (a time zone that is *)
+(*        not a whole minute, tree/name None, a tree entry with a bad mode)*)
+(*        = Spoil; setting the good value again = Unspoil.  While spoiled  *)
+(*        and dirty every read calls _serialize(), which raises: FailedRead*)
+(*        -- and it must raise AGAIN when the caller asks again            *)
 (*   Blob.data = SetRaw(v, FALSE); Blob.chunked = SetChunked(v): a Blob    *)
 (*        has no fields besides its text cache                             *)
 (***************************************************************************)
@@ -32,7 +37,8 @@ CONSTANTS NF,                \* number of fields (valuations are tuples of lengt
           IsBlob,            \* TRUE: Blob (fields = text cache, setters data/chunked)
           SetterMarksDirty,  \* FALSE: defect model -- the setter of field 1 forgets _needs_serialization
           ChunkedResetsSha,  \* FALSE: defect model -- Blob.chunked keeps the cached sha (objects.py at 671b511)
-          ExplicitSha1Recomputes  \* FALSE: defect model -- sha(SHA1)/get_id(SHA1) is answered from the cache like .id
+          ExplicitSha1Recomputes, \* FALSE: defect model -- sha(SHA1)/get_id(SHA1) is answered from the cache like .id
+          DirtyUntilSerialized    \* FALSE: defect model -- as_raw_chunks clears _needs_serialization BEFORE _serialize()
 
 Valuations == [1..NF -> Vals]
 V0 == [i \in 1..NF |-> CHOOSE x \in Vals : \A y \in Vals : x <= y]
@@ -48,11 +54,15 @@ VARIABLES fields,   \* current field values
           dirty,    \* _needs_serialization
           text,     \* _chunked_text: NoText or the valuation it is the serialisation of
           sha,      \* _sha: NoSha, Computed(v) (a hashlib object), Fixed(v, F) (FixedSha given by the caller)
-          last      \* [op, f, x, ret, rfmt]: the call just made, the valuation its result stands for and,
-                    \* for a name, the format it is the hash in
-vars == <<fields, dirty, text, sha, last>>
+          bad,      \* some field holds a value that _serialize() cannot write (it raises)
+          last      \* [op, f, x, ret, rfmt, err]: the call just made, the valuation its result stands for,
+                    \* for a name the format it is the hash in, and whether the call raised
+vars == <<fields, dirty, text, sha, bad, last>>
 
-Step(op, f, x, ret, rfmt) == last' = [op |-> op, f |-> f, x |-> x, ret |-> ret, rfmt |-> rfmt]
+Step(op, f, x, ret, rfmt) == last' = [op |-> op, f |-> f, x |-> x, ret |-> ret, rfmt |-> rfmt, err |-> FALSE]
+
+\* a read of a dirty object calls _serialize(); it raises iff the object is spoiled
+Fails == dirty /\ bad
 
 \* what as_raw_chunks() leaves behind
 TextAfter == IF dirty THEN Text(fields) ELSE text
@@ -66,16 +76,40 @@ Init ==
             THEN dirty = TRUE /\ text = NoText /\ sha = NoSha           \* constructor + setters
             ELSE /\ dirty = FALSE /\ text = Text(v)                     \* from_string / from_raw_string / from_file
                  /\ sha = IF origin = "rawsha" THEN Fixed(v, F) ELSE NoSha   \* loaded by a sha1 / sha256 store
-         /\ last = [op |-> origin, f |-> IF origin = "rawsha" THEN F ELSE 0, x |-> 0, ret |-> v, rfmt |-> 0]
+         /\ bad = FALSE
+         /\ last = [op |-> origin, f |-> IF origin = "rawsha" THEN F ELSE 0, x |-> 0, ret |-> v, rfmt |-> 0, err |-> FALSE]
 
 Set(f, x) ==
     /\ ~IsBlob
     /\ fields' = [fields EXCEPT ![f] = x]
     /\ dirty' = IF SetterMarksDirty \/ f # 1 THEN TRUE ELSE dirty
-    /\ UNCHANGED <<text, sha>>
+    /\ UNCHANGED <<text, sha, bad>>
     /\ Step("set", f, x, fields', 0)
 
+\* an edit that cannot be serialised, and its repair (both go through an ordinary setter)
+Spoil ==
+    /\ ~IsBlob /\ ~bad
+    /\ bad' = TRUE /\ dirty' = TRUE
+    /\ UNCHANGED <<fields, text, sha>>
+    /\ Step("spoil", 0, 0, fields, 0)
+Unspoil ==
+    /\ bad
+    /\ bad' = FALSE /\ dirty' = TRUE
+    /\ UNCHANGED <<fields, text, sha>>
+    /\ Step("unspoil", 0, 0, fields, 0)
+
+\* any read (as_raw_*, id, sha(F), copy, check, as_legacy_object) of a spoiled dirty object: as_raw_chunks() drops the
+\* cached sha, calls _serialize(), which raises; the object must stay dirty so that the next read
+\* fails again (defect model: the flag is cleared first and the next read returns the old text)
+FailedRead ==
+    /\ Fails
+    /\ sha' = NoSha
+    /\ dirty' = DirtyUntilSerialized
+    /\ UNCHANGED <<fields, text, bad>>
+    /\ last' = [op |-> "fail", f |-> 0, x |-> 0, ret |-> fields, rfmt |-> 0, err |-> TRUE]
+
 AsRaw ==
+    /\ ~Fails /\ UNCHANGED bad
     /\ text' = TextAfter /\ sha' = ShaAfterRaw /\ dirty' = FALSE
     /\ UNCHANGED fields
     /\ Step("raw", 0, 0, TextAfter.v, 0)
@@ -83,6 +117,7 @@ AsRaw ==
 \* .id / sha(): the cache, if there is one and the object is clean -- in the format it was given in
 UseCache == sha.k # "none" /\ ~dirty
 ReadId ==
+    /\ ~Fails /\ UNCHANGED bad
     /\ IF UseCache THEN UNCHANGED <<text, dirty, sha>>
        ELSE text' = TextAfter /\ dirty' = FALSE /\ sha' = Computed(TextAfter.v)
     /\ UNCHANGED fields
@@ -92,6 +127,7 @@ ReadId ==
 \* (defect model: an explicit SHA-1 request takes the path of .id)
 ReadIdF(F) ==
     LET cached == F = 1 /\ ~ExplicitSha1Recomputes IN
+    /\ ~Fails /\ UNCHANGED bad
     /\ IF cached /\ UseCache THEN UNCHANGED <<text, dirty, sha>>
        ELSE /\ text' = TextAfter /\ dirty' = FALSE
             /\ sha' = IF cached THEN Computed(TextAfter.v) ELSE ShaAfterRaw
@@ -99,6 +135,7 @@ ReadIdF(F) ==
     /\ Step("idF", F, 0, IF cached THEN sha'.v ELSE TextAfter.v, IF cached THEN sha'.fmt ELSE F)
 
 SetRaw(v, w) ==
+    /\ bad' = FALSE                       \* parsing overwrites every field
     /\ fields' = v /\ text' = Text(v) /\ dirty' = FALSE
     /\ sha' = IF w = 0 THEN NoSha ELSE Fixed(v, w)
     /\ Step("setraw", w, 0, v, 0)
@@ -107,11 +144,12 @@ SetChunked(v) ==
     /\ IsBlob
     /\ fields' = v /\ text' = Text(v)
     /\ sha' = IF ChunkedResetsSha THEN NoSha ELSE sha
-    /\ UNCHANGED dirty
+    /\ UNCHANGED <<dirty, bad>>
     /\ Step("chunked", 0, 0, v, 0)
 
 \* copy(): from_raw_string(type, as_raw_string(), self.id) -- result stands for the copy's content
 Copy ==
+    /\ ~Fails /\ UNCHANGED bad
     /\ text' = TextAfter /\ dirty' = FALSE
     /\ sha' = IF ShaAfterRaw.k = "none" THEN Computed(TextAfter.v) ELSE ShaAfterRaw
     /\ UNCHANGED fields
@@ -119,6 +157,7 @@ Copy ==
 
 \* check(): old = id; _deserialize(as_raw_chunks()); _sha = None; new = id
 Check ==
+    /\ ~Fails /\ bad' = FALSE            \* re-parses the text into the fields
     /\ text' = TextAfter /\ dirty' = FALSE
     /\ fields' = TextAfter.v
     /\ sha' = Computed(TextAfter.v)
@@ -127,6 +166,7 @@ Check ==
 \* the object is written in loose-object form and read back (from_file; w as in SetRaw: the name a
 \* sha1 / sha256 object store found it by).  DiskObjectStore.add_object + __getitem__ is this step.
 Reload(w) ==
+    /\ ~Fails /\ bad' = FALSE
     /\ text' = TextAfter /\ dirty' = FALSE
     /\ fields' = TextAfter.v
     /\ sha' = IF w = 0 THEN NoSha ELSE Fixed(TextAfter.v, w)
@@ -139,25 +179,31 @@ Next ==
     \/ \E v \in Valuations, w \in {0} \cup Formats : SetRaw(v, w)
     \/ \E v \in Valuations : SetChunked(v)
     \/ \E w \in {0} \cup Formats : Reload(w)
+    \/ Spoil \/ Unspoil \/ FailedRead
 
 Spec == Init /\ [][Next]_vars
 
 \* ------------------------------------------------------------------ properties
-TypeOK == /\ fields \in Valuations /\ dirty \in BOOLEAN
+TypeOK == /\ fields \in Valuations /\ dirty \in BOOLEAN /\ bad \in BOOLEAN
           /\ text.v \in Valuations /\ sha.v \in Valuations /\ sha.k \in {"none", "computed", "fixed"}
           /\ sha.fmt \in {0} \cup Formats /\ (sha.k = "none" <=> sha.fmt = 0) /\ (sha.k = "computed" => sha.fmt = 1)
 
 \* every way of reading the name returns the hash of the serialisation of the CURRENT fields; an
 \* explicit request sha(F)/get_id(F) returns it IN THE REQUESTED FORMAT, whatever is cached
-IdIsHash == /\ (last.op = "id" => last.ret = fields)
-            /\ (last.op = "idF" => last.ret = fields /\ last.rfmt = last.f)
+IdIsHash == /\ (last.op = "id" /\ ~last.err => last.ret = fields)
+            /\ (last.op = "idF" /\ ~last.err => last.ret = fields /\ last.rfmt = last.f)
 
 \* every way of reading the bytes returns the serialisation of the current fields; a copy, a
 \* checked and a reloaded object carry the current fields
-SerCurrent == last.op \in {"raw", "copy", "check", "reload"} => last.ret = fields
+SerCurrent == last.op \in {"raw", "copy", "check", "reload"} /\ ~last.err => last.ret = fields
+
+\* bytes or a name are only ever handed out for fields that can be serialised: after a failed
+\* serialisation the same request fails again, it never returns what was cached before the edit
+Reads == {"raw", "id", "idF", "copy", "check", "reload"}
+NoStaleAfterFailure == last.op \in Reads /\ ~last.err => ~bad \/ last.op \in {"check", "reload"}
 
 \* what makes the two above inductive: a clean object's caches describe its fields
-CacheCoherent == /\ (~dirty => text.some /\ text.v = fields)
+CacheCoherent == /\ (~dirty => text.some /\ text.v = fields /\ ~bad)
                  /\ (~dirty /\ sha.k # "none" => sha.v = fields)
                  /\ (~text.some => dirty)
 =============================================================================
